@@ -107,7 +107,7 @@ def run(ctx):
     if exe is None:
         ctx.broke("correspondence:cpp-build", ctx.extra.get("cpp_build_error"))
     else:
-        cpp = {c: rh.cpp_run(exe, [(3 * k + c, t0, hist) for k, t0, hist in cases]) for c in (0, 1, 2)}
+        cpp = {c: rh.cpp_run(exe, [(rh.NCOMBO * k + c, t0, hist) for k, t0, hist in cases]) for c in rh.COMBOS}
 
     def nontrivial(hist):
         return len(hist) >= 2 and any(len(t["readings"]) >= 2 and [r[0] for r in t["readings"]] != sorted(r[0] for r in t["readings"]) for t in hist)
